@@ -17,6 +17,7 @@ from .model import CallCtx, Contract, Model
 from .source import find_function
 
 QUICK_TIMEOUT_MS = int(os.environ.get("PYVC_TIMEOUT_MS", "10000"))
+Z3_SEED = int(os.environ.get("PYVC_Z3_SEED", "0"))        # only the confirmation pass uses other seeds
 
 
 class FunctionReport:
@@ -66,6 +67,8 @@ def solve(pc, goal, timeout_ms=None, want_model=True):
     s1 = z3.SimpleSolver()
     s1.set("timeout", min(timeout_ms, 1500))
     s1.set("mbqi", False)
+    if Z3_SEED:
+        s1.set("random_seed", Z3_SEED)
     for f in pc:
         s1.add(f)
     s1.add(z3.Not(goal))
@@ -82,6 +85,8 @@ def solve(pc, goal, timeout_ms=None, want_model=True):
     # 2. full z3 (MBQI)
     s = z3.Solver()
     s.set("timeout", timeout_ms)
+    if Z3_SEED:
+        s.set("random_seed", Z3_SEED)
     for f in pc:
         s.add(f)
     s.add(z3.Not(goal))
